@@ -126,7 +126,7 @@ where
             observe(&c, st);
             let mut rng = Rng::derive(cfg.seed ^ 0x5555, tag, case);
             f(&c, case, &mut rng, st);
-            if case < 2 {
+            if case < 8 {
                 st.sample(history_sample(&c, 12));
             }
         }
